@@ -287,3 +287,56 @@ Definition snstep (st : snst) (x : obyte) : snst :=
 Definition snfinish (st : snst) : list obyte :=
   rev (if sn_ps st then (false, 59) :: sn_out st else sn_out st).
 Definition snorm (l : list obyte) : list obyte := snfinish (fold_left snstep l sn0).
+
+(* ---------------------------------------------------------------- css_lex0: the tokenizer of the sub-grammar
+   Sub-grammar: whitespace, comments, quoted strings, the one-byte tokens { } ; , > : and runs of any other
+   bytes (identifier-like runs, numbers, other punctuation).  css_lex0 strips comments first ([decomment]),
+   classifies every byte ([cls]) and merges neighbouring run bytes into runs and neighbouring string bytes
+   into strings ([group]).  It differs from css_lex on purpose in three places, all excluded by css_guard:
+   a comment between two run bytes does not split the run, a backslash has no special meaning outside strings,
+   and a string runs to its closing quote even across a newline. *)
+Definition cls (x : obyte) : ctok :=
+  if fst x then CStr 0 [snd x] true
+  else if snd x =? 32 then CWs
+  else if is_struct (snd x) then CD (snd x)
+  else CRun [snd x].
+
+Fixpoint group (l : list ctok) : list ctok :=
+  match l with
+  | [] => []
+  | t :: r =>
+    match t, group r with
+    | CRun a, CRun b :: r' => CRun (a ++ b) :: r'
+    | CStr q a c, CStr _ b _ :: r' => CStr q (a ++ b) c :: r'
+    | _, gr => t :: gr
+    end
+  end.
+
+Definition tlex (l : list obyte) : list ctok := group (map cls l).
+Definition css_lex0 (s : list N) : list ctok := tlex (decomment s).
+(* the normalised token sequence read off the byte-level normal form *)
+Definition ntoks0 (l : list obyte) : list ctok := tlex (snorm l).
+
+(* in a tagged stream, a string byte directly followed by a non-string byte is not one of { } ; , > :
+   (it is the closing quote) *)
+Fixpoint tag_ok (l : list obyte) : bool :=
+  match l with
+  | x :: ((y :: _) as r) => negb (fst x && negb (fst y) && is_struct (snd x)) && tag_ok r
+  | _ => true
+  end.
+
+(* css_lex spells a string token as quote kind + body; css_lex0 as the bytes including the quotes *)
+Definition strq (t : ctok) : ctok :=
+  match t with
+  | CStr q b true => CStr 0 (q :: b ++ [q]) true
+  | CStr q b false => CStr 0 (q :: b) true
+  | _ => t
+  end.
+
+(* bridges that are evaluated per case by the check *)
+Definition bridge_b (s : list N) : bool :=
+  toks_eqb (norm (css_lex0 s)) (group (map strq (norm (css_lex s))))               (* css_lex0 vs css_lex, modulo norm *)
+  && toks_eqb (norm (css_lex0 (minify_css s))) (group (map strq (norm (css_lex (minify_css s)))))
+  && toks_eqb (norm (css_lex0 s)) (ntoks0 (decomment s))                   (* norm o tlex = tlex o snorm *)
+  && toks_eqb (norm (tlex (minify_tagged s))) (ntoks0 (minify_tagged s))
+  && toks_eqb (css_lex0 (minify_css s)) (tlex (minify_tagged s)).          (* re-scanning the output finds the same strings *)
